@@ -85,14 +85,19 @@ func (r *Result) CalculateWinnerRewards(potIdx int, l *LevelInfo) {
 	winners := l.rank.GetWinners()
 
 	// Calculate rewards
-	based := l.Total / int64(len(winners))
-	remainder := l.Total % int64(len(winners))
+	count := int64(len(winners))
+	based := l.Total / count
+	remainder := l.Total % count
+
+	// Odd chips are handed out in turn across the levels of the same pot
+	offset := r.Pots[potIdx].oddChipOffset % count
+	r.Pots[potIdx].oddChipOffset = (offset + remainder) % count
 
 	for i, wIdx := range winners {
 
 		reward := based
 
-		if int64(i) < remainder {
+		if (int64(i)-offset+count)%count < remainder {
 			reward += 1
 		}
 
